@@ -141,6 +141,7 @@ type Style struct {
 	Quote    int  // YAML strings: 0 = plain where safe else double, 1 = always double, 2 = single where possible, 3 = plain wherever an independent loader reads the same string back
 	Anchors  bool // YAML: anchors + aliases for repeated subtrees
 	Literal  bool // YAML block style: multi-line and JSON-looking strings as literal block scalars (|, |-, |+)
+	NumKeys  bool // YAML block style: mapping keys made of digits are written plain (404: instead of "404":), as people write response codes
 }
 
 var Styles = []Style{
@@ -154,6 +155,7 @@ var Styles = []Style{
 	{Name: "yaml-block2-anchors", YAML: true, Indent: 2, Anchors: true},
 	{Name: "yaml-block2-plain", YAML: true, Indent: 2, Quote: 3},
 	{Name: "yaml-block2-literal", YAML: true, Indent: 2, Literal: true},
+	{Name: "yaml-block2-numkeys", YAML: true, Indent: 2, NumKeys: true},
 }
 
 func StyleByName(n string) Style {
@@ -593,6 +595,8 @@ func (e *emitter) block(v *V, indent int, inline bool) {
 			e.key(m.Value)
 			if plainOK(m.Name) && (e.st.Quote == 0 || e.st.Quote == 3) && !strings.Contains(m.Name, " ") {
 				e.w(m.Name)
+			} else if e.st.NumKeys && decimalKey(m.Name) {
+				e.w(m.Name)
 			} else {
 				e.yamlDouble(m.Name)
 			}
@@ -682,6 +686,19 @@ func (e *emitter) block(v *V, indent int, inline bool) {
 		}
 		e.w("\n")
 	}
+}
+
+// decimalKey: 1-9 digits without a leading zero (what YAML reads as an integer and prints back as the same text)
+func decimalKey(s string) bool {
+	if s == "" || len(s) > 9 || (s[0] == '0' && len(s) > 1) {
+		return false
+	}
+	for _, c := range s {
+		if c < '0' || c > '9' {
+			return false
+		}
+	}
+	return true
 }
 
 // literalOK: strings this emitter writes as literal block scalars - several lines, or text that looks like a JSON
